@@ -28,6 +28,29 @@ def gen(n, nfree, seed):
     return out
 
 
+def selfconnect_runs(sc, binary, seed, n):
+    """dials to a port of the (one-port) ephemeral range with no listener, in a private network namespace: the kernel connects the
+    socket to itself, netpoll closes it and dials again.  -> (results by id, scenarios that ran)"""
+    import subprocess
+    selfs = [{'id': 'dialself-%d-%d' % (seed, i), 'seed': seed * 7 + i, 'free': True, 'peer': 'selfconnect', 'dials': 1, 'timeoutus': 50000,
+              'network': 'tcp', 'strategy': 'free', 'plan': []} for i in range(n)]
+    inp, outp = sc.path('self_in.json'), sc.path('self_out.ndjson')
+    json.dump({'scenarios': selfs}, open(inp, 'w'))
+    cmd = 'ip link set lo up; VERIF_IN=%s VERIF_OUT=%s exec %s -test.run "^TestVerifDialScenarios$" -test.count=1 -test.timeout 300s' % (inp, outp, binary)
+    try:
+        subprocess.run(['unshare', '-n', 'sh', '-c', cmd], cwd=sc.path('repo'), env=vlib.GOENV, stdout=subprocess.PIPE, stderr=subprocess.STDOUT, text=True, timeout=400)
+    except Exception:
+        return {}, []
+    res, ran = {}, []
+    if os.path.exists(outp):
+        for l in open(outp):
+            r = json.loads(l)
+            if not any(e['e'] == 'SetupErr' for e in r['events']):
+                res[r['scenario']] = r
+                ran.append(next(s for s in selfs if s['id'] == r['scenario']))
+    return res, ran
+
+
 def main(pid, tier, replay_path=None):
     t0 = time.time()
     seed = vlib.seed()
@@ -52,20 +75,10 @@ def main(pid, tier, replay_path=None):
                 crashed += cr2
             resf, crf = conn.run_scenarios(sc, binary, free, 'f', procs=3, test='TestVerifDialScenarios')
             # self-connect retry: needs a private network namespace (narrowed ephemeral port range); skipped where unshare is not permitted
-            selfs = [] if replay_path else [{'id': 'dialself-%d-%d' % (seed, i), 'seed': seed * 7 + i, 'free': True, 'peer': 'selfconnect', 'dials': 1, 'timeoutus': 50000,
-                                              'network': 'tcp', 'strategy': 'free', 'plan': []} for i in range(3 if tier == 'quick' else 40)]
-            if selfs:
-                import subprocess
-                inp, outp = sc.path('self_in.json'), sc.path('self_out.ndjson')
-                json.dump({'scenarios': selfs}, open(inp, 'w'))
-                cmd = 'ip link set lo up; VERIF_IN=%s VERIF_OUT=%s exec %s -test.run "^TestVerifDialScenarios$" -test.count=1 -test.timeout 300s' % (inp, outp, binary)
-                p = subprocess.run(['unshare', '-n', 'sh', '-c', cmd], cwd=sc.path('repo'), env=vlib.GOENV, stdout=subprocess.PIPE, stderr=subprocess.STDOUT, text=True, timeout=400)
-                if os.path.exists(outp):
-                    for l in open(outp):
-                        r = json.loads(l)
-                        if not any(e['e'] == 'SetupErr' for e in r['events']):
-                            resf[r['scenario']] = r
-                            free.append(next(s for s in selfs if s['id'] == r['scenario']))
+            if not replay_path:
+                rself, sself = selfconnect_runs(sc, binary, seed, 3 if tier == 'quick' else 40)
+                resf.update(rself)
+                free += sself
             res.update(resf)
             crashed += crf
             scs = ctl + free
